@@ -532,4 +532,54 @@ v("P-pop-ended-comprehensions", [(P, POP_OLD, """        ended_meta_tasks = {t f
         return ended_meta_tasks
 """)], {"C04": "ok", "C08": "ok"})
 
+# ---------------------------------------------------------------- C16 / C17 / C18
+PA = "control/parser.py"
+v("45-public_only-default-false", [(PA, "        public_only: bool = True,  # noqa: FBT001, FBT002\n", "        public_only: bool = False,  # noqa: FBT001, FBT002\n")], {"C16": "R16.2"})
+v("45b-handshake-uses-base-class", [(SE, "        self._parser.add_class_commands(self._pool.__class__)\n", "        from ..pool import BaseTaskPool\n        self._parser.add_class_commands(BaseTaskPool)\n")], {"C16": "R16.1"})
+v("45c-handshake-reply-before-parser", [(SE, "        self._parser.add_class_commands(self._pool.__class__)\n        self._writer.write(str(self._pool).encode() + b\"\\n\")\n        await self._writer.drain()\n", "        self._writer.write(str(self._pool).encode() + b\"\\n\")\n        await self._writer.drain()\n        self._parser.add_class_commands(self._pool.__class__)\n")], {"C16": "R16.1"})
+v("45d-command-name-keeps-underscores", [(PA, '        subparser_kwargs.setdefault("name", function.__name__.replace("_", "-"))\n', '        subparser_kwargs.setdefault("name", function.__name__)\n')], {"C16": "R16.2"})
+v("45e-properties-skipped", [(PA, "            elif isinstance(member, property):\n                subparser = self.add_property_command(\n                    member, cls.__name__, **common_kwargs\n                )\n            else:\n                continue", "            else:\n                continue")], {"C16": "R16.2"})
+v("45f-member-stored-under-other-key", [(PA, "        member_arg_name: str = CMD,\n", '        member_arg_name: str = "cmd",\n')], {"C16": "R16.2"})
+v("46-var-pos-before-normal", [(SE, "            method, *normal_pos, *var_pos, **kwargs\n", "            method, *var_pos, *normal_pos, **kwargs\n")], {"C17": "R17.1"})
+v("47-setter-result-dropped", [(SE, """            output = await return_or_exception(prop.fset, self._pool, **kwargs)  # type: ignore[call-arg]
+            self._response_buffer.write(
+                CMD_OK.decode() if output is None else str(output)
+            )
+""", """            await return_or_exception(prop.fset, self._pool, **kwargs)  # type: ignore[call-arg]
+            self._response_buffer.write(CMD_OK.decode())
+""")], {"C17": "R17.1r"})
+v("47b-method-reply-always-ok", [(SE, "            CMD_OK.decode() if output is None else str(output)\n        )\n\n    async def _exec_property_and_respond(", "            CMD_OK.decode()\n        )\n\n    async def _exec_property_and_respond(")], {"C17": "R17.1r"})
+v("47c-return_or_exception-not-awaited", [("internals/helpers.py", "            return await cast(\n                Awaitable[_R], _function_to_execute(*args, **kwargs)\n            )", "            return cast(\n                Awaitable[_R], _function_to_execute(*args, **kwargs)\n            )")], {"C17": "R17.4"})
+v("47d-return_or_exception-catches-valueerror-only", [("internals/helpers.py", "    except Exception as e:\n        return e\n", "    except ValueError as e:\n        return e\n")], {"C17": "R17.4", "C18": "R18.3"})
+v("47e-keyword-only-popped-positionally", [(SE, "                param.POSITIONAL_ONLY,\n            ):", "                param.POSITIONAL_ONLY,\n                param.KEYWORD_ONLY,\n            ):")], {"C17": "R17.1"})
+v("47f-flag-default-from-parameter", [(PA, '                kwargs.setdefault("action", "store_true")\n', '                kwargs.setdefault("action", "store_false")\n')], {"C17": "R17.3"})
+v("47g-option-default-dropped", [(PA, '                kwargs.setdefault("default", parameter.default)\n', '                pass\n')], {"C17": "R17.3"})
+v("47h-pool-flag-default-true", [(P, "    async def flush(\n        self,\n        return_exceptions: bool = False,", "    async def flush(\n        self,\n        return_exceptions: bool = True,")], {"C17": "R17.3"})
+v("48-print_message-prints", [(PA, "        if message:\n            self._stream.write(message)\n", "        if message:\n            print(message)\n")], {"C18": "R18.1"})
+v("49-exit-override-deleted", [(PA, """    def exit(self, status: int = 0, message: str | None = None) -> None:  # type: ignore[override]  # noqa: ARG002
+        \"\"\"Overridden to prevent system exit to be invoked.\"\"\"
+        if message:
+            self._print_message(message)
+
+""", "")], {"C18": "R18.1"})
+v("50-type-wrapper-reraises-everything", [(PA, """        except Exception as e:
+            text = (
+                f"{e.__class__.__name__} occurred in parser trying to "
+                f"convert type: {cls.__name__}({arg!r})"
+            )
+            log.exception(text)
+            raise ArgumentTypeError(text) from e  # propagate to the client
+""", "")], {"C18": "R18.3"})
+v("51-response-buffer-class-attribute", [(SE, "        self._response_buffer: StringIO = StringIO()\n", ""), (SE, "class ControlSession:\n", "class ControlSession:\n    _response_buffer: StringIO = StringIO()\n")], {"C18": "R18.4"})
+v("52-seek-dropped", [(SE, "            self._response_buffer.seek(0)\n", "")], {"C18": "R18.4"})
+v("52b-reply-skipped-for-empty-response", [(SE, "            self._writer.write(response.encode())\n            await self._writer.drain()\n", "            if response.strip():\n                self._writer.write(response.encode())\n                await self._writer.drain()\n")], {"C18": "R18.2"})
+v("52c-helprequested-not-caught", [(SE, "        except (HelpRequested, ParserError):\n", "        except ParserError:\n")], {"C18": "R18.3"})
+v("52d-error-returns", [(PA, "        super().error(message=message)\n        raise ParserError\n", "        super().error(message=message)\n")], {"C18": "R18.1"})
+v("52e-subparsers-lose-stream", [(PA, "        common_kwargs = CommandParserSpecialKwargs(\n            stream=self._stream,\n", "        import io\n        common_kwargs = CommandParserSpecialKwargs(\n            stream=io.StringIO(),\n")], {"C18": "R18.1"})
+v("52f-session-calls-member-directly", [(SE, "            self._response_buffer.write(\n                str(await return_or_exception(prop.fget, self._pool))\n            )", "            self._response_buffer.write(\n                str(prop.fget(self._pool))\n            )")], {"C18": "R18.3", "C17": "viol"})
+v("52g-buffer-truncate-before-getvalue", [(SE, "            response = self._response_buffer.getvalue() + \"\\n\"\n            self._response_buffer.seek(0)\n            self._response_buffer.truncate()\n", "            self._response_buffer.seek(0)\n            self._response_buffer.truncate()\n            response = self._response_buffer.getvalue() + \"\\n\"\n")], {"C18": "R18.4"})
+v("52h-log-to-stderr", [(SE, "            await self._parse_command(msg)\n", "            await self._parse_command(msg)\n            import sys\n            sys.stderr.write(msg)\n")], {"C18": "R18.1"})
+v("P15-truncate0-then-seek", [(SE, "            self._response_buffer.seek(0)\n            self._response_buffer.truncate()\n", "            self._response_buffer.truncate(0)\n            self._response_buffer.seek(0)\n")], {"C18": "ok"})
+v("P-parse-command-log-lines", [(SE, "        command = kwargs.pop(CMD)\n", "        log.debug('parsed %s', kwargs)\n        command = kwargs.pop(CMD)\n")], {"C18": "ok", "C17": "ok", "C16": "ok"})
+
 VARIANTS = V
